@@ -57,12 +57,12 @@ def edits(rng: random.Random, m: gen.GModel, n: int):
             i = rng.choice(expr_blocks)
             j = rng.randrange(len(bl[i][2]))
             ln = bl[i][2][j]
-            for op in (" + ", " - ", "*", "/"):
-                if op in ln.split("=", 1)[1]:
-                    head, tail = ln.split("=", 1)
-                    k = tail.index(op) + len(op)
-                    bl[i][2][j] = head + "=" + tail[:k] + "\n      " + tail[k:]
-                    break
+            head, tail = ln.split("=", 1)
+            import re as _re
+            cands = [m_.end() for m_ in _re.finditer(r" \+ | - |(?<![*(,])\*(?!\*)|/", tail)] if "#" not in tail else []
+            if cands:
+                k = rng.choice(cands)
+                bl[i][2][j] = head + "=" + tail[:k] + "\n      " + tail[k:]
             out.append(("line break after a binary operator", "continuation", render(bl)))
         elif kind == "nl_open_paren" and expr_blocks:
             i = rng.choice(expr_blocks)
